@@ -675,7 +675,7 @@ type stTrustCfg struct {
 	Pin     string   `json:"pin"` // "-" | certificate | "bad"
 	Fp      string   `json:"fp"`  // "-" | the certificate whose fingerprint is configured
 	Alg     string   `json:"alg"` // "-" | sha1 | sha256 | sha512
-	Fmt     string   `json:"fmt"` // canon | lower | otheralg
+	Fmt     string   `json:"fmt"` // WHAT STRING is configured: canon | lower | otheralg | empty | prefix (abbreviated)
 	Trusted []string `json:"trusted"`
 	Clean   bool     `json:"clean"`
 }
@@ -741,10 +741,18 @@ func stCertText(name string, cv stCfgVariant) string {
 func stTrustedByStatement(c *stTrustCfg) []string {
 	set := map[string]bool{}
 	if c.Pin != "-" || c.Fp != "-" {
-		for _, x := range []string{c.Pin, c.Fp} {
-			if stIsCert(x) {
-				set[x] = true
-			}
+		if stIsCert(c.Pin) {
+			set[c.Pin] = true
+		}
+		// "a certificate with that fingerprint": the empty string is the fingerprint of no certificate, and an
+		// abbreviation never makes the attacker's own certificate an IdP certificate the SP trusts; for an
+		// abbreviation of an IdP certificate's fingerprint the lenient reading is kept (as for lower case /
+		// other algorithm): open whether that certificate is meant, everything else is untrusted
+		switch {
+		case !stIsCert(c.Fp) || c.Fmt == "empty":
+		case c.Fmt == "prefix" && stKeyOwner(stKeyName(c.Fp)) == "att":
+		default:
+			set[c.Fp] = true
 		}
 	} else {
 		for _, kd := range c.Md {
@@ -820,6 +828,25 @@ func stFingerprintAlg(c *x509.Certificate, alg string) string {
 	return strings.Join(parts, ":")
 }
 
+// stFingerprintPrefix: an abbreviation of the canonical fingerprint of that model certificate - the shortest
+// prefix of whole bytes ("AB", "AB:CD", ...) with which the fingerprint of no other certificate of the model
+// starts; always a non-empty PROPER prefix (panics otherwise: the caller reports BROKEN)
+func stFingerprintPrefix(cert, alg string) string {
+	full := stFingerprintAlg(stKey(stKeyName(cert)).Cert, alg)
+	for n := 2; n < len(full); n += 3 {
+		p, unique := full[:n], true
+		for _, o := range []string{"Kidp1", "Kidp1k", "Kidp2", "Kenc", "Katt", "Klook"} {
+			if o != cert && strings.HasPrefix(stFingerprintAlg(stKey(stKeyName(o)).Cert, alg), p) {
+				unique = false
+			}
+		}
+		if unique {
+			return p
+		}
+	}
+	panic("no proper prefix of the fingerprint of " + cert + " tells it from the other certificates")
+}
+
 // stMetadata builds the IdP metadata that lists the given key descriptors
 func stMetadata(kds []stKD, cv stCfgVariant) *saml.EntityDescriptor {
 	md := idpMetadata(nil)
@@ -877,8 +904,13 @@ func stNewSP(c *stTrustCfg, cv stCfgVariant) *saml.ServiceProvider {
 			alg = map[string]string{"sha256": "sha512", "sha512": "sha256", "sha1": "sha256"}[alg]
 		}
 		f := stFingerprintAlg(stKey(stKeyName(c.Fp)).Cert, alg)
-		if c.Fmt == "lower" {
+		switch c.Fmt {
+		case "lower":
 			f = strings.ToLower(f)
+		case "empty":
+			f = ""
+		case "prefix":
+			f = stFingerprintPrefix(c.Fp, alg)
 		}
 		s.IDPCertificateFingerprint = sp(f)
 	}
@@ -913,6 +945,23 @@ func stLoadTrustCfgs(rep *Report) map[string]*stTrustCfg {
 			if mine := stTrustedByStatement(c); strings.Join(mine, ",") != strings.Join(c.Trusted, ",") {
 				rep.Break("trust configuration %s: the specification says TrustedKeys = %v, the statement read here gives %v", c.Name, c.Trusted, mine)
 				return nil
+			}
+			if c.Fp != "-" && c.Fmt == "prefix" {
+				// instrument self-check: the abbreviation is a non-empty proper prefix of that certificate's fingerprint
+				alg := c.Alg
+				if alg == "-" {
+					alg = "sha256"
+				}
+				var pfx string
+				if p, msg := safely(func() { pfx = stFingerprintPrefix(c.Fp, alg) }); p {
+					rep.Break("trust configuration %s: %s", c.Name, msg)
+					return nil
+				}
+				full := stFingerprintAlg(stKey(stKeyName(c.Fp)).Cert, alg)
+				if pfx == "" || len(pfx) >= len(full) || !strings.HasPrefix(full, pfx) {
+					rep.Break("trust configuration %s: %q is no proper prefix of %q", c.Name, pfx, full)
+					return nil
+				}
 			}
 			if old, ok := out[c.Name]; ok {
 				a, _ := json.Marshal(old)
